@@ -163,7 +163,12 @@ func (x *c13Ctx) describe(cs *c13Case) string {
 	if x.scheme == "bgv" {
 		xs = c12I64(cs.x)
 	}
-	fmt.Fprintf(&sb, "eval t=%d q=%s slots=%d cheb=%d lazy=%d lvl=%d scale=%d tscale=%d x=%s", x.t, Vec(qs), x.slots, b2i(cs.cheb), b2i(cs.lazy), cs.level, cs.scale, cs.tscale, xs)
+	op := "eval"
+	if x.scheme == "ckks" && cs.lazy {
+		// these lines (trace and value) follow schemes/ckks/evaluator.go MulThenAdd as fixed by C06-6/C06-7
+		op = "eval-ckks-lazy"
+	}
+	fmt.Fprintf(&sb, op+" t=%d q=%s slots=%d cheb=%d lazy=%d lvl=%d scale=%d tscale=%d x=%s", x.t, Vec(qs), x.slots, b2i(cs.cheb), b2i(cs.lazy), cs.level, cs.scale, cs.tscale, xs)
 	if cs.mapping == nil {
 		sb.WriteString(" map=-")
 	} else {
@@ -407,7 +412,12 @@ func (x *c13Ctx) runCase(c *Ctx, cs *c13Case) {
 				c.Count("eval:wrong-result")
 			}
 			line += fmt.Sprintf(" lvl=%d val=%s", out.Level(), vs)
-			c.Probe("value_ckks_2pow-10", tag, "C13-ckks-value", bad)
+			if cs.lazy {
+				// holds once schemes/ckks/evaluator.go MulThenAdd keeps the accumulator's degree (C06-6/C06-7)
+				c.Probe("value_ckks_lazy_2pow-10", tag, "C13/ckks-lazy-value", bad)
+			} else {
+				c.Probe("value_ckks_2pow-10", tag, "C13-ckks-value", bad)
+			}
 			// out.scale = requested, relative error below 2^-30
 			r := new(big.Float).Quo(&out.Scale.Value, &target.Value)
 			rf, _ := r.Float64()
@@ -582,19 +592,26 @@ func c13Pure(c *Ctx) {
 		deg := 1 + c.rng.Intn(40)
 		cheb := c.rng.Intn(2) == 1
 		// Factorize requires n >= deg/2 (else it panics) and n <= deg
-		lo := (deg + 1) >> 1
+		// n from below the guard (must panic with the guard's message) up to the degree
+		lo := (deg+1)>>1 - 1
 		if lo < 1 {
 			lo = 1
 		}
 		if deg%2 == 1 && deg > 1 && it%10 == 0 {
-			// the documented guard is n >= deg>>1; for odd degree in the Chebyshev basis n = deg>>1 indexes pr.Coeffs[-1]
+			// the guard must cover n = deg>>1 for odd degrees (the Chebyshev branch indexes pr.Coeffs[n-j], j <= deg-n)
 			fb := make([]float64, deg+1)
 			pb := bignum.NewPolynomial(bignum.Chebyshev, fb, [2]float64{-1, 1})
-			res := Try(func() string { pb.Factorize(deg >> 1); return "" })
 			d := ""
-			if res == "panic" {
-				d = fmt.Sprintf("Chebyshev degree %d Factorize(%d) panics with index out of range although n >= deg>>1", deg, deg>>1)
-			}
+			func() {
+				defer func() {
+					if r := recover(); r != nil {
+						if _, isStr := r.(string); !isStr {
+							d = fmt.Sprintf("Chebyshev degree %d Factorize(%d): run-time panic instead of the guard", deg, deg>>1)
+						}
+					}
+				}()
+				pb.Factorize(deg >> 1)
+			}()
 			c.Probe("factorize_guard", fmt.Sprintf("%d %d", deg, deg>>1), "C13-factorize-guard", d)
 		}
 		n := lo + c.rng.Intn(deg-lo+1)
